@@ -1,6 +1,6 @@
 import PPModel.Base.Sexp
 import PPModel.Mod.Settings
-namespace PP.Driver
+namespace PP.Driver.SettingsD
 open PP PP.Sexp PP.Settings
 
 /-!
@@ -136,4 +136,8 @@ def settingsHandle : List Sexp → Option Sexp
   | [.atom "settings-canon", .str s] => pure (ofChars (pySet s))
   | _ => none
 
+end PP.Driver.SettingsD
+
+namespace PP.Driver
+def settingsHandle := SettingsD.settingsHandle
 end PP.Driver
